@@ -36,14 +36,17 @@ def spec_pool():
     sp.append(spec('@t', {'@t': '{"x": @t}'}))
     sp.append(spec('@t', {'@t': '{"x": 1,'}))
     sp.append(spec('{\n "a": 1 // {min: 2}\n}'))
-    # valid for Check() but Example() fails half-way, at each nesting position (error paths of the example builders)
-    bad = '{} // {or: [{type: "object"}, {type: "integer"}]}'
+    # Example() fails half-way, at each nesting position (error paths of the example builders): a type that is not registered
+    bad = '@missing'
     sp.append(spec('[\n  ' + bad + '\n]'))
     sp.append(spec('[\n  1,\n  ' + bad + '\n]'))
     sp.append(spec('{\n  "k": ' + bad + '\n}'))
     sp.append(spec('{\n  "a": [1, 2],\n  "k": [\n    ' + bad + '\n  ]\n}'))
     sp.append(spec('[\n  {\n    "k": ' + bad + '\n  }\n]'))
     sp.append(spec('{\n  "a": @t\n}', {'@t': '[\n  ' + bad + '\n]'}))
+    # containers that carry an `or` rule (their example is the container itself)
+    sp.append(spec('[\n  { // {or: [{type: "object"}, {type: "integer"}]}\n  }\n]'))
+    sp.append(spec('{\n  "k": [ // {or: ["array", "string"]}\n    1\n  ]\n}'))
     # string formats as alternatives (the conversions rename some of them)
     for fmt, ex in [('datetime', '"2021-01-02T07:23:12+03:00"'), ('date', '"2021-01-02"'), ('email', '"x@y.org"'), ('uri', '"http://a.b/c"'),
                     ('uuid', '"550e8400-e29b-41d4-a716-446655440000"')]:
